@@ -29,7 +29,8 @@ Abstractions (facts about strings and the store, not about the module's logic):
   the same way, and `InitGenesis` itself visits them in sorted key order);
 * payloads the service model does not carry (schemas, tags, descriptions, inputs, options, the
   pricing JSON text) were validated when the object was accepted and are immutable afterwards;
-  their genesis-time validation is not modelled.  `TxSizeLimit` is not modelled (constant).
+  their genesis-time validation is not modelled.  `TxSizeLimit` is not modelled (constant).  The keys of
+  the context map are `HexBytes.String()` of the store keys, so `hex.DecodeString` on them cannot fail.
 Core Lean only.
 -/
 import Irismod.Model.Service
@@ -97,8 +98,8 @@ def bindValid (e : (String × Addr) × Binding) : Bool :=
 
 def wdValid (e : Addr × Addr) : Bool := validAddr e.1 && validAddr e.2
 
-/-- `hex.DecodeString` succeeds: hex digits, even length -/
-def hexId (id : String) : Bool := isHex id && id.length % 2 == 0
+
+
 
 /-- `RequestContext.Validate`: service name, provider list (non-empty, at most 10, distinct), consumer -/
 def ctxFieldsValid (c : Ctx) : Bool :=
@@ -108,7 +109,7 @@ def ctxFieldsValid (c : Ctx) : Bool :=
 /-- … and the genesis-only requirement: PAUSED, batch COMPLETED -/
 def ctxQuiet (c : Ctx) : Bool := c.state == .paused && c.batchState == .completed
 
-def ctxValid (e : CtxId × Ctx) : Bool := hexId e.1 && ctxFieldsValid e.2 && ctxQuiet e.2
+def ctxValid (e : CtxId × Ctx) : Bool := ctxFieldsValid e.2 && ctxQuiet e.2
 
 /-- `ValidateGenesis` -/
 def genesisValid (g : Genesis) : Bool :=
